@@ -1737,6 +1737,15 @@ int32_t tls13EncodeResponseServer(ssl_t *ssl, psBuf_t *out, uint32 *requiredLen)
         if (needHelloRetryRequest(ssl))
         {
             psTraceInfo("No acceptable client (EC)DHE share\n");
+            if (ssl->tls13HelloRetryRequestGroup != 0)
+            {
+                /* RFC 8446 4.1.4, 4.2.8: one HelloRetryRequest per
+                   connection. A second ClientHello that still lacks the
+                   share asked for ends the handshake. */
+                psTraceErrr("Second ClientHello without an acceptable share\n");
+                ssl->err = SSL_ALERT_ILLEGAL_PARAMETER;
+                return MATRIXSSL_ERROR;
+            }
             Memset(&ssl->sec.tls13KsState, 0, sizeof(ssl->sec.tls13KsState));
             ssl->sec.tls13UsingPsk = PS_FALSE;
             ssl->extFlags.got_pre_shared_key = 0;
